@@ -153,6 +153,11 @@ def expected_start(ast, tdy, cfg_version, tags_all, tags_merged, scope, ignore):
     return top, "tag-wins"
 
 
+# lexid.next_id on an id that has no successor (BUILD 9999): the start version itself cannot be bumped, with or
+# without tags, so such a run says nothing about tag handling
+LEXID_EXHAUSTED = "OverflowError: max lexical version reached"
+
+
 def make_project(p, cur, scope_cfg):
     lines = ["[bumpver]", f"current_version = {projects.toml_str(cur)}", f"version_pattern = {projects.toml_str(p)}"]
     if scope_cfg:
@@ -226,7 +231,9 @@ def observe(ctx, case, d, env, p, ast, tdy, cur, tags_all, tags_merged, scope, c
     if "doy-366-at-year-9999" in kinds:
         ctx.count("doy_366_at_year_9999_cases")
         u = harness.invoke(["update", "--dry", "--no-fetch", "--date", "2031-02-03"], cwd=d, env=env)
-        if u.crash:
+        if u.crash and LEXID_EXHAUSTED in u.crash:
+            ctx.count("start_version_at_lexid_maximum")     # BUILD 9999 cannot be incremented: nothing to do with tags
+        elif u.crash:
             ctx.violation("out_of_range_date_tag_crashes", f"update --dry: {u.crash[-200:]}", case=case, observed=desc)
         return      # only "does not break" is asserted here (see gen_tags)
     got = res.stdout_value("Current Version: ")
@@ -251,6 +258,9 @@ def observe(ctx, case, d, env, p, ast, tdy, cur, tags_all, tags_merged, scope, c
         desc = dict(desc, scope=f"{desc['scope']} overridden by --tag-scope {cli_scope}", expected=sorted(acceptable))
     ures = harness.invoke(uargs, cwd=d, env=env)
     if fetch_fails and not ignore and (ures.crash or ures.exit_code != 0):
+        return
+    if ures.crash and LEXID_EXHAUSTED in ures.crash:
+        ctx.count("start_version_at_lexid_maximum")
         return
     if ures.crash:
         ctx.violation("impossible_date_tag_crashes" if ("impossible-date" in kinds and "ValueError" in ures.crash)
